@@ -77,7 +77,7 @@ func (f *failAfterConn) Write(b []byte) (int, error) {
 // arrives. Nothing may crash, B still gets its own reply, A gets an error, and
 // a later call works.
 func c10SendFailsAfterDelivery(c *ev.Ctx) {
-	for round := 0; round < c.Sz(6, 60); round++ {
+	for round := 0; round < c.Sz(16, 60); round++ {
 		if !c.Mine(round) {
 			continue
 		}
@@ -209,7 +209,7 @@ func c10SendFailsAfterDelivery(c *ev.Ctx) {
 // changes after the fact).
 func c10SharedFile(c *ev.Ctx) {
 	defer runtime.GOMAXPROCS(runtime.GOMAXPROCS(8))
-	for round := 0; round < c.Sz(6, 120); round++ {
+	for round := 0; round < c.Sz(16, 120); round++ {
 		if !c.Mine(round) {
 			continue
 		}
@@ -322,7 +322,7 @@ func direntsDiffer(d []p9.Dirent, fid, off uint64, n int) string {
 // the withdrawn request's reply - another call's data. Either the next call gets
 // its own reply, or it fails.
 func c10SendFailsLateReply(c *ev.Ctx) {
-	for round := 0; round < c.Sz(6, 60); round++ {
+	for round := 0; round < c.Sz(16, 60); round++ {
 		if !c.Mine(round + 1) {
 			continue
 		}
